@@ -7,6 +7,7 @@ EXPLANATION = (
     "C-API transaction entry points other than ndb_txn_commit) no call path reaches a durable or globally visible mutation primitive "
     "(page-file write, WAL append/rewrite, publication of runs / labels / node table, label-interner insertion, HNSW insertion); and "
     "ndb_txn_rollback reaches no commit. Whole-program call graph over resolved callees, closed world for trait objects."
+    " C07.5 (shared with C02.2): every page-file and node-table mutation in WriteTxn::commit is dominated by the Ok arm of the WAL fsync, so a commit that returns an error before that point — a transaction that ends without a successful commit — leaves no trace."
     " C07.4: in WriteTxn::commit no index maintenance is dominated by the Ok arm of the WAL fsync (a failure there would report an error for a transaction recovery replays)."
 )
 
@@ -32,6 +33,9 @@ def run(ctx):
     from .c02 import scanner_rule
     ctx.rule("C07.3", "log scanners discard the records of a transaction that never committed when the next BeginTx arrives")
     scanner_rule(ctx, "C07.3")
+    from .c02 import pre_durable_mutation_rule
+    ctx.rule("C07.5", "a commit that fails before its CommitTx record is durable has touched nothing outside the log (shared with C02.2)")
+    pre_durable_mutation_rule(ctx, "C07.5")
     ctx.rule("C07.2", "ndb_txn_rollback and the other non-commit C-API transaction entry points reach no commit")
     prims = {M.WRITE_PAGE_RAW: "page-file write", M.WAL_APPEND: "WAL append", M.WAL_REWRITE: "WAL rewrite",
              M.PUBLISH_RUN: "publish run", M.UPDATE_NODE_LABELS: "publish node labels", LABEL_GET_OR_CREATE: "label interner insert"}
